@@ -53,7 +53,9 @@ META = {
         "(`parts[-1] += ...`, `parts.append('')`) and assembles the regex afterwards, the assembly statements (loops over slices of "
         "the parts, f-string templates, `len(parts)` tests) are evaluated for every abstract pattern; `(?=(?P<g>.*?X))(?P=g)` is "
         "read as an atomic 'up to the first occurrence of X' wildcard, which equals ANY* X exactly when X is literal, the lazy form "
-        "is used and something elastic (another such wildcard or a plain ANY*) follows - otherwise it is a mismatch. Every "
+        "is used and something elastic (another such wildcard or a plain ANY*) follows - otherwise it is a mismatch. The translator may be split into helpers of the module: a scan helper "
+        "that returns the list of parts (as plain text when the caller maps re.escape over them), and an assembly helper "
+        "`_join(parts)` - scan, escape step and assembly are composed for every abstract pattern. Every "
         "translated pattern may contain at most one backtracking ANY* (a failed fullmatch over k independent `.*` is exponential). "
         "R2 (API): match_with_wildcard returns True exactly under `pattern is None`, otherwise fullmatch (or match of an "
         "expression the translator ends in \\Z - not `$`, which also matches before a final line feed) of the unmodified name against "
@@ -64,7 +66,8 @@ META = {
         "4-tuple or, through a helper that returns project_name/project_version/uri/display_name in tuple order, as Sphinx's item "
         "class; a local list of a mapping's keys minus the keys without ':') shows that the flat Sphinx keys are walked grouped by "
         "domain in order of first occurrence (a stable sort on list.index of the domain, or on a {domain: index} dict in which the "
-        "first occurrence wins - a dict comprehension over enumerate keeps the last and is rejected) - the order in which the native nesting lists them - and that each coordinate is tested against its own filter - through "
+        "first occurrence wins - a dict comprehension over enumerate keeps the last and is rejected -, or a {domain: [keys]} dict "
+        "filled key by key and walked with itertools.chain.from_iterable(d.values())) - the order in which the native nesting lists them - and that each coordinate is tested against its own filter - through "
         "match_with_wildcard or through _create_regex(<filter>).fullmatch, never Pattern.match/search and never on the joined "
         "domain:type key -, that all four tests dominate every yield (an `f is None or ...` disjunct is accepted; a boolean flag variable is judged "
         "by every value it can have been given; a plain string test - startswith, ==, in - of a coordinate as a fast path is "
@@ -94,7 +97,8 @@ META = {
         "nothing but one reference for 1, IREF_AMBIGUOUS exactly once plus one reference for >1; the handler of a try around the href "
         "parse is its own outcome class (exactly one warning, no lookup, no reference); the first match is used; refuri is "
         "posixpath.join(base_url, loc) if base_url else loc (urljoin is rejected: RFC-relative resolution drops the base's last segment), "
-        "match.loc for Sphinx inventories. Code moved into private helpers is followed one level: the href decomposition "
+        "match.loc for Sphinx inventories; properties of InvMatch and one-expression package functions (`match.uri`, "
+        "`resolve_location(base, loc)`) are expanded before the expression is judged. Code moved into private helpers is followed one level: the href decomposition "
         "returned as a tuple / NamedTuple / dataclass (role tracing and the per-part execution continue inside the helper, "
         "selected by field or index), warnings and the reference construction produced by a helper a fixed number of times, "
         "the href parse behind a helper call, the refuri store in the helper that receives the selected match."
@@ -227,7 +231,7 @@ def _is_none_test(t: ast.expr, name: str) -> bool | None:
 class Transducer:
     """`_create_regex` as a decision table over (flag valuation x character class)."""
 
-    def __init__(self, fi: FunctionInfo):
+    def __init__(self, fi: FunctionInfo, scan_only: bool = False, text_mode: bool = False):
         self.fi = fi
         self.mod = fi.module
         if len(fi.params) != 1:
@@ -238,12 +242,67 @@ class Transducer:
         self.loop: ast.For | None = None
         self.post: list[ast.stmt] = []
         self.ret: ast.Return | None = None
+        self.scan_only, self.text_mode = scan_only, text_mode
+        self.scan_post: list[ast.stmt] | None = None
+        self.scan_acc: str | None = None
+        self.escape_map = False
+        self.asm_fn: FunctionInfo | None = None
+        if not scan_only and self._pipeline():
+            return
         self._split_body()
         self.char = self.loop.target.id
         self.classes = self._classes()
         self.table: dict[tuple, tuple] = {}
         self.end: dict[tuple, list] = {}
         self._build()
+
+    # -- the translator split into helpers: scan -> (re.escape over the parts) -> assembly -----------------
+    def _pipeline(self) -> bool:
+        """`parts = [re.escape(p) for p in _split(pat)]` (or `parts = _split(pat)`) ... `return re.compile(<assembly>, flags)`:
+        the character scan lives in a helper that returns the list of parts; the assembly is inline or in a helper `_join(parts)`."""
+        body = [st for st in self.fi.node.body if not (isinstance(st, ast.Expr) and isinstance(st.value, ast.Constant))]
+        if len(body) < 2 or not isinstance(body[-1], ast.Return):
+            return False
+        st = body[0]
+        if not (isinstance(st, ast.Assign) and len(st.targets) == 1 and isinstance(st.targets[0], ast.Name)):
+            return False
+        v = st.value
+        escape = False
+        if isinstance(v, ast.ListComp) and len(v.generators) == 1 and not v.generators[0].ifs and isinstance(v.generators[0].target, ast.Name):
+            g_ = v.generators[0]
+            if isinstance(v.elt, ast.Call) and self.mod.resolve(dotted(v.elt.func) or "") == "re.escape" and len(v.elt.args) == 1 and isinstance(v.elt.args[0], ast.Name) and v.elt.args[0].id == g_.target.id:
+                escape, v = True, g_.iter
+            elif isinstance(v.elt, ast.Name) and v.elt.id == g_.target.id:
+                v = g_.iter
+            else:
+                return False
+        if not (isinstance(v, ast.Call) and isinstance(v.func, ast.Name) and v.func.id in self.mod.functions and len(v.args) == 1 and not v.keywords and isinstance(v.args[0], ast.Name) and v.args[0].id == self.pat):
+            return False
+        h = self.mod.functions[v.func.id]
+        if h.is_lambda or len(h.params) != 1 or h.fq == self.fi.fq:
+            return False
+        inner = Transducer(h, scan_only=True, text_mode=escape)
+        if not inner.acc_list:
+            raise Unsupported(f"{h.qualname} does not collect a list of parts")
+        self.inner = inner
+        self.acc, self.acc_list = st.targets[0].id, True
+        self.flags0, self.loop, self.char, self.classes = inner.flags0, inner.loop, inner.char, inner.classes
+        self.table, self.init, self.states = inner.table, inner.init, inner.states
+        self.holders, self.rewrites = inner.holders, inner.rewrites
+        self.end = {s_: [] for s_ in inner.states}
+        self.prefix, self.end_anchor, self.seen_anys = [], None, []
+        self.scan_post, self.scan_acc, self.escape_map = inner.post, inner.acc, escape
+        self.post, self.ret = body[1:-1], body[-1]
+        rv = self.ret.value
+        if not (isinstance(rv, ast.Call) and self.mod.resolve(dotted(rv.func) or "") == "re.compile" and rv.args):
+            raise Unsupported(f"{self.fi.qualname} does not return re.compile(...)")
+        a0 = rv.args[0]
+        if isinstance(a0, ast.Call) and isinstance(a0.func, ast.Name) and a0.func.id in self.mod.functions and len(a0.args) == 1 and not a0.keywords and isinstance(a0.args[0], ast.Name) and a0.args[0].id == self.acc:
+            j = self.mod.functions[a0.func.id]
+            if j.is_lambda or len(j.params) != 1:
+                raise Unsupported(f"{j.qualname}: assembly helper signature")
+            self.asm_fn = j
+        return True
 
     # -- function shape -------------------------------------------------------
     LOSSY = {"lower", "upper", "casefold", "title", "capitalize", "swapcase", "strip", "lstrip", "rstrip"}
@@ -317,6 +376,8 @@ class Transducer:
                 raise Unsupported(f"statement before the translator loop not understood: `{short(st, 60)}`")
             else:
                 if isinstance(st, ast.Return):
+                    if self.scan_only and not (isinstance(st.value, ast.Name) and st.value.id == self.acc):
+                        raise Unsupported(f"{self.fi.qualname} does not return its list of parts")
                     self.ret = st
                 else:
                     self.post.append(st)
@@ -438,6 +499,11 @@ class Transducer:
         """Regex text appended to the accumulator -> fragment kinds."""
         if isinstance(e, ast.BinOp) and isinstance(e.op, ast.Add):
             return self._frags(e.left, cls) + self._frags(e.right, cls)
+        if self.text_mode:
+            # the parts are plain text here (the caller maps re.escape over them): every appended character is itself
+            if isinstance(e, ast.Call):
+                raise Unsupported(f"call `{short(e, 40)}` appended to a text part that is escaped later")
+            return [f for kind, x in self._str_items(e, cls) for f in ([("RAW", x)] if kind == "char" else [("RAW", ch) for ch in x])]
         if isinstance(e, ast.Call) and self.mod.resolve(dotted(e.func) or "") == "re.escape" and len(e.args) == 1 and not e.keywords:
             out = []
             for kind, x in self._str_items(e.args[0], cls):
@@ -453,7 +519,12 @@ class Transducer:
             if kind == "char":
                 out.append(("RAW", x))
             else:
-                out += classify_regex_text(x)
+                try:
+                    out += classify_regex_text(x)
+                except Unsupported as ex:
+                    if "does not parse on its own" not in str(ex):
+                        raise
+                    out += [("RAW", ch) for ch in x]  # e.g. a lone backslash appended as regex text: not an escaped literal
         return out
 
     def _run(self, stmts, flags: dict[str, bool], out: list, cls: str | None) -> str:
@@ -490,8 +561,8 @@ class Transducer:
             raise Unsupported(f"statement `{short(st, 60)}` in {self.fi.qualname} is outside the understood subset")
         return "fall"
 
-    def _is_last_part(self, t: ast.expr) -> bool:
-        return isinstance(t, ast.Subscript) and isinstance(t.value, ast.Name) and t.value.id == self.acc and (
+    def _is_last_part(self, t: ast.expr, acc: str | None = None) -> bool:
+        return isinstance(t, ast.Subscript) and isinstance(t.value, ast.Name) and t.value.id == (acc or self.acc) and (
             (isinstance(t.slice, ast.UnaryOp) and isinstance(t.slice.op, ast.USub) and isinstance(t.slice.operand, ast.Constant) and t.slice.operand.value == 1)
             or (isinstance(t.slice, ast.Constant) and t.slice.value == -1)
         )
@@ -507,6 +578,8 @@ class Transducer:
                 parts[-1].append(f)
         env: dict[str, object] = {}
         flushed: list | None = None
+        accname = self.scan_acc if self.scan_post is not None else self.acc  # the name the parts go by in the statements being run
+        fragfn = self.inner._frags if self.scan_post is not None else self._frags  # (the scan helper may collect plain text)
 
         def const_int(e):
             if isinstance(e, ast.Constant) and type(e.value) is int:
@@ -516,7 +589,7 @@ class Transducer:
             return None
 
         def ev(e):
-            if isinstance(e, ast.Subscript) and isinstance(e.value, ast.Name) and e.value.id == self.acc:
+            if isinstance(e, ast.Subscript) and isinstance(e.value, ast.Name) and e.value.id == accname:
                 if isinstance(e.slice, ast.Slice):
                     lo = None if e.slice.lower is None else const_int(e.slice.lower)
                     hi = None if e.slice.upper is None else const_int(e.slice.upper)
@@ -530,7 +603,7 @@ class Transducer:
             if isinstance(e, ast.Name) and e.id in env:
                 v = env[e.id]
                 return list(v) if isinstance(v, list) else v
-            if isinstance(e, ast.Name) and e.id == self.acc:
+            if isinstance(e, ast.Name) and e.id == accname:
                 return ("PARTS", [list(p_) for p_ in parts])
             if isinstance(e, ast.BinOp) and isinstance(e.op, ast.Add):
                 a, b = ev(e.left), ev(e.right)
@@ -550,7 +623,7 @@ class Transducer:
                 return self._ev(t, flags, None)
             except Unsupported:
                 pass
-            if isinstance(t, ast.Compare) and len(t.ops) == 1 and isinstance(t.left, ast.Call) and isinstance(t.left.func, ast.Name) and t.left.func.id == "len" and len(t.left.args) == 1 and isinstance(t.left.args[0], ast.Name) and t.left.args[0].id == self.acc and const_int(t.comparators[0]) is not None:
+            if isinstance(t, ast.Compare) and len(t.ops) == 1 and isinstance(t.left, ast.Call) and isinstance(t.left.func, ast.Name) and t.left.func.id == "len" and len(t.left.args) == 1 and isinstance(t.left.args[0], ast.Name) and t.left.args[0].id == accname and const_int(t.comparators[0]) is not None:
                 a, b = len(parts), const_int(t.comparators[0])
                 for cls_, fn in ((ast.Gt, a > b), (ast.GtE, a >= b), (ast.Lt, a < b), (ast.LtE, a <= b), (ast.Eq, a == b), (ast.NotEq, a != b)):
                     if isinstance(t.ops[0], cls_):
@@ -564,16 +637,16 @@ class Transducer:
                     continue
                 if isinstance(st, ast.If):
                     run(st.body if test(st.test) else st.orelse)
-                elif isinstance(st, ast.AugAssign) and isinstance(st.op, ast.Add) and self._is_last_part(st.target):
+                elif isinstance(st, ast.AugAssign) and isinstance(st.op, ast.Add) and self._is_last_part(st.target, accname):
                     if flushed is not None:
                         raise Unsupported("a part is extended after the assembly has started")
-                    parts[-1] += self._frags(st.value, None)
+                    parts[-1] += fragfn(st.value, None)
                 elif isinstance(st, ast.AugAssign) and isinstance(st.op, ast.Add) and isinstance(st.target, ast.Name) and st.target.id in env and isinstance(env[st.target.id], list):
                     v = ev(st.value)
                     if not isinstance(v, list):
                         raise Unsupported(f"`{short(st, 50)}` in the regex assembly")
                     env[st.target.id] = env[st.target.id] + v
-                elif isinstance(st, ast.Assign) and len(st.targets) == 1 and isinstance(st.targets[0], ast.Name) and st.targets[0].id != self.acc and st.targets[0].id not in flags:
+                elif isinstance(st, ast.Assign) and len(st.targets) == 1 and isinstance(st.targets[0], ast.Name) and st.targets[0].id != accname and st.targets[0].id not in flags:
                     if flushed is None:
                         flushed = [list(p_) for p_ in parts]
                     env[st.targets[0].id] = ev(st.value)
@@ -599,11 +672,31 @@ class Transducer:
                 else:
                     raise Unsupported(f"statement `{short(st, 60)}` in the regex assembly of {self.fi.qualname}")
 
-        run(self.post)
+        if self.scan_post is not None:
+            # the scan lives in a helper: its flush first, then what the caller does to the parts, then the assembly
+            run(self.scan_post)
+            if flushed is not None:
+                raise Unsupported("the scan helper assembles as well")
+            if self.escape_map:
+                parts[:] = [[("LIT", f[1]) if f[0] == "RAW" else f for f in p_] for p_ in parts]
+            flushed = [list(p_) for p_ in parts]
+            fragfn = self._frags
         v = self.ret.value
         if not (isinstance(v, ast.Call) and self.mod.resolve(dotted(v.func) or "") == "re.compile" and v.args):
             raise Unsupported(f"{self.fi.qualname} does not return re.compile(...)")
-        final = ev(v.args[0])
+        if self.asm_fn is not None:
+            accname = self.acc
+            run(self.post)  # (statements between the parts and the compile call in the translator itself: normally none)
+            accname = self.asm_fn.params[0]
+            jb = [st for st in self.asm_fn.node.body if not (isinstance(st, ast.Expr) and isinstance(st.value, ast.Constant))]
+            if not jb or not isinstance(jb[-1], ast.Return) or jb[-1].value is None:
+                raise Unsupported(f"{self.asm_fn.qualname}: assembly helper does not end in a return")
+            run(jb[:-1])
+            final = ev(jb[-1].value)
+        else:
+            accname = self.acc
+            run(self.post)
+            final = ev(v.args[0])
         if not isinstance(final, list):
             raise Unsupported(f"{self.fi.qualname}: re.compile argument not understood")
         return _check_atomic(final), (flushed if flushed is not None else parts)
@@ -701,6 +794,8 @@ class Transducer:
                 flat += out
                 steps.append([("ANY", 0, "inf", True) if f == ("SEP",) else f for f in out])
             _final, parts = self._assemble(dict(s), flat)
+            if self.escape_map:  # the caller escapes the collected text: the steps are shown as what reaches the regex
+                steps = [[("LIT", f[1]) if f[0] == "RAW" else f for f in x] for x in steps]
             before = sum(len(x) for x in steps) - sum(1 for x in steps for f in x if f[0] == "ANY")
             tail = [f for p_ in parts for f in p_][before:]  # what the flush added to the last part
             return steps, tail
@@ -1261,7 +1356,7 @@ def _match_call(v: ast.expr):
     return None
 
 
-def _free_reads(fi: FunctionInfo) -> set[str]:
+def _free_reads(fi: FunctionInfo, _depth: int = 0) -> set[str]:
     import builtins
 
     local = set(fi.params)
@@ -1272,6 +1367,9 @@ def _free_reads(fi: FunctionInfo) -> set[str]:
     for n in fi.local_nodes():
         if isinstance(n, ast.Name) and isinstance(n.ctx, ast.Load) and n.id not in local and not hasattr(builtins, n.id):
             if n.id in fi.module.imports:
+                continue
+            if n.id in fi.module.functions and not fi.module.functions[n.id].is_lambda and _depth < 3:
+                free |= _free_reads(fi.module.functions[n.id], _depth + 1)  # a helper of the module: what it reads counts
                 continue
             if n.id in fi.module.const_nodes:
                 try:
@@ -1329,6 +1427,7 @@ class Kinds:
         self.domlists: dict[str, tuple[str, str]] = {}  # local list of the domains of a key view: name -> (key view, where the key is cut)
         self.understood_comps: set[int] = set()
         self.domranks: dict[str, tuple[str, str, str]] = {}  # {domain: index} dicts: name -> (key view, where the key is cut, "first" | "last" occurrence wins)
+        self.groupdicts: dict[str, tuple[str, str, ast.AST]] = {}  # {domain: [keys]} dicts filled key by key: name -> (mapping role, where the key is cut, filling loop)
         self.recviews: dict[str, tuple] = {}  # local list of the records a generator helper yields: name -> (sub, roles, arg role, node)  # loop -> alternatives of its iterable that are built from a filter
         if not fi.params:
             raise Unsupported(f"{fi.qualname} has no parameter")
@@ -1418,6 +1517,40 @@ class Kinds:
         else:
             raise Unsupported(f"{self.fi.qualname}: cannot bind `{short(target, 30)}` to role {kind}")
 
+    def _grouped_keys(self, it: ast.expr) -> str | None:
+        """Name of the {domain: [keys]} dict when ``it`` chains its value lists: `itertools.chain.from_iterable(G.values())` / `chain(*G.values())`."""
+        if not isinstance(it, ast.Call):
+            return None
+        fn = self.fi.module.resolve(dotted(it.func) or "")
+        arg = None
+        if fn == "itertools.chain.from_iterable" and len(it.args) == 1 and not it.keywords:
+            arg = it.args[0]
+        elif fn == "itertools.chain" and len(it.args) == 1 and isinstance(it.args[0], ast.Starred):
+            arg = it.args[0].value
+        if isinstance(arg, ast.Call) and isinstance(arg.func, ast.Attribute) and arg.func.attr == "values" and not arg.args and isinstance(arg.func.value, ast.Name) and arg.func.value.id in self.groupdicts:
+            return arg.func.value.id
+        return None
+
+    def _note_group_fill(self, n: ast.For, var: str, mk: str) -> None:
+        """`G.setdefault(<domain of key>, []).append(key)` in the body of a loop over a mapping's keys (possibly under `":" in key`)."""
+        def stmts(body):
+            for st in body:
+                if isinstance(st, ast.If) and not st.orelse and isinstance(st.test, ast.Compare) and len(st.test.ops) == 1 and isinstance(st.test.ops[0], ast.In) and isinstance(st.test.left, ast.Constant) and st.test.left.value == ":" and isinstance(st.test.comparators[0], ast.Name) and st.test.comparators[0].id == var:
+                    yield from stmts(st.body)
+                else:
+                    yield st
+
+        for st in stmts(n.body):
+            c = st.value if isinstance(st, ast.Expr) else None
+            if (isinstance(c, ast.Call) and isinstance(c.func, ast.Attribute) and c.func.attr == "append" and len(c.args) == 1 and isinstance(c.args[0], ast.Name) and c.args[0].id == var
+                    and isinstance(c.func.value, ast.Call) and isinstance(c.func.value.func, ast.Attribute) and c.func.value.func.attr == "setdefault" and isinstance(c.func.value.func.value, ast.Name)
+                    and len(c.func.value.args) == 2 and isinstance(c.func.value.args[1], ast.List) and not c.func.value.args[1].elts):
+                g_ = c.func.value.func.value.id
+                dom = _domain_of(c.func.value.args[0], var)
+                init = _defs_of(self.fi, g_)
+                if dom is not None and len(init) == 1 and isinstance(init[0], ast.Dict) and not init[0].keys and KEY_OF[self.rk].get(mk) == "DOMOTYPE":
+                    self.groupdicts[g_] = (mk, dom, n)
+
     def _follow_generator(self, it: ast.expr):
         """(Kinds of the helper, roles of what it yields, role of its argument) for `helper(mapping)`, a generator of this module."""
         helper = self.fi.module.functions.get(it.func.id) if isinstance(it, ast.Call) and isinstance(it.func, ast.Name) else None
@@ -1450,6 +1583,14 @@ class Kinds:
             if it.func.id in ORDER_BREAKERS:
                 self.order_breaks.append((n, it.func.id))
             it = it.args[0]
+        gd = self._grouped_keys(it)
+        if gd is not None:
+            # for key in chain.from_iterable(groups.values()): the keys, domain by domain in order of first occurrence
+            mk, cut, _fill = self.groupdicts[gd]
+            self._bind(n.target, KEY_OF[self.rk][mk], n)
+            n._c19_kind = mk  # type: ignore[attr-defined]
+            n._c19_grouped = cut  # type: ignore[attr-defined]
+            return
         followed = self._follow_generator(it)
         if followed is None and isinstance(it, ast.Name) and it.id in self.recviews:
             followed = self.recviews[it.id][:3]  # a local list materialised from the generator helper (possibly re-sorted)
@@ -1490,6 +1631,8 @@ class Kinds:
             self._bind(n.target.elts[1], VAL_OF[self.rk][k], n)
         elif mode == "keys":
             self._bind(n.target, KEY_OF[self.rk][k], n)
+            if isinstance(n.target, ast.Name):
+                self._note_group_fill(n, n.target.id, k)
         else:
             self._bind(n.target, VAL_OF[self.rk][k], n)
 
@@ -1606,6 +1749,9 @@ def _domain_of(e: ast.expr, var: str) -> str | None:
 def _key_order(kd: "Kinds", loop: ast.For):
     """How a loop over the flat `domain:type` keys orders them: ("grouped", node) - stable sort by the first occurrence of
     the key's domain, i.e. the order in which the native nesting lists them -, ("flat", None), ("other", node)."""
+    if getattr(loop, "_c19_grouped", None) is not None:
+        # a dict {domain: [keys]} filled key by key lists the domains in order of first occurrence and the keys of a domain in theirs
+        return ("grouped", loop) if loop._c19_grouped == "first" else ("other", loop)
     base = loop.iter
     if isinstance(base, ast.Call) and isinstance(base.func, ast.Attribute) and base.func.attr in ("items", "keys", "values") and not base.args:
         base = base.func.value
@@ -1912,7 +2058,7 @@ def r3_pairing(corpus: Corpus, rep: Report, tier: str):
                     rep.violation("C19.R3", k, fx.module.site(loop), f"the loop iterates `{short(loop.iter, 50)}`: `{br[0]}` replaces the mapping's own (inventory) order")
                 else:
                     rep.ok("C19.R3", k, fx.module.site(loop))
-                if rk == "sphinx" and fx is fi and (loop._c19_kind == "SINV" or loop._c19_kind.startswith("SINV (through")):
+                if rk == "sphinx" and fx is fi and (loop._c19_kind == "SINV" or loop._c19_kind.startswith("SINV (through")) and any(isinstance(x, (ast.Yield, ast.YieldFrom)) for x in ast.walk(loop)):
                     # the native format nests the types under their domain (first occurrence), the Sphinx format is flat:
                     # the flat keys must be walked grouped by domain or the two representations yield in different orders
                     k = f"{fx.fq}|domain:type keys are walked grouped by domain, in the order of the native nesting"
@@ -2852,7 +2998,14 @@ def _href_shape_check(rep: Report, fi: FunctionInfo, where: FunctionInfo, hp: "H
     # (3) a literal '%' of the source must reach the filter: markdown-it leaves '%25' encoded in normalizeLinkText
     k = f"{fi.fq}|a literal % of the destination reaches the filter"
     root, f = how[1], where
-    if where.fq != fi.fq and isinstance(root, ast.Name) and root.id in where.params:
+
+    def normalised_in(fn: FunctionInfo, name: str) -> bool:
+        try:
+            return any(isinstance(x, ast.Call) and (dotted(x.func) or "").endswith("normalizeLinkText") for d_ in _defs_of(fn, name) for x in ast.walk(d_))
+        except Unsupported:
+            return False
+
+    if where.fq != fi.fq and isinstance(root, ast.Name) and root.id in where.params and not normalised_in(where, root.id):
         # the helper receives the destination: continue at the call site
         hc = [c for c in fi.local_nodes() if isinstance(c, ast.Call) and _callee(c, fi, ctx[1]) is not None and _callee(c, fi, ctx[1]).fq == where.fq]
         if len(hc) != 1 or root.id not in _arg_map(hc[0], where):
@@ -3382,12 +3535,67 @@ def r4_link_paths(corpus: Corpus, rep: Report, tier: str):
                 raise Unsupported(f"{where.qualname}: parameter {mv} is re-assigned")
         else:
             raise Unsupported(f"{fi.qualname}: {len(uris)} refuri stores")
-        verdict = _refuri_verdict(uri, mv, rk, where.module)
+        uri_x, uri_mods = _expand_match_expr(uri, mv, where, corpus)
+        verdict = _refuri_verdict(uri_x, mv, rk, uri_mods)
         if verdict is None:
             rep.ok("C19.R4", k, where.module.site(uri), unparse(uri)[:100])
         else:
             rep.violation("C19.R4", k, where.module.site(uri), verdict)
     rep.expect_min("C19.R4", 36, "13 pass-through keywords + 2 x (order, 3 count classes, first match, refuri)")
+
+
+def _single_return(f: FunctionInfo) -> ast.expr | None:
+    if f.is_lambda:
+        return None
+    body = [st for st in f.node.body if not (isinstance(st, ast.Expr) and isinstance(st.value, ast.Constant))]
+    return body[0].value if len(body) == 1 and isinstance(body[0], ast.Return) else None
+
+
+def _expand_match_expr(e: ast.expr, mv: str, where: FunctionInfo, corpus: Corpus, depth: int = 0):
+    """``e`` with properties of the InvMatch ``mv`` and calls of one-expression package functions replaced by their
+    definitions (`match.uri` -> `resolve_location(match.base_url, match.loc)` -> `posixpath.join(...) if ... else ...`);
+    returns (expression, modules whose imports its names may refer to)."""
+    mods = [where.module]
+    im = corpus.cls("inventory:InvMatch")
+
+    class X(ast.NodeTransformer):
+        def visit_Attribute(self, node):
+            self.generic_visit(node)
+            if isinstance(node.value, ast.Name) and node.value.id == mv and node.attr in im.methods and "property" in im.methods[node.attr].decorators():
+                r = _single_return(im.methods[node.attr])
+                prm = im.methods[node.attr].params
+                if r is not None and prm:
+                    class S(ast.NodeTransformer):
+                        def visit_Name(self, nm):
+                            return ast.Name(id=mv, ctx=nm.ctx) if nm.id == prm[0] else nm
+
+                    mods.append(im.module)
+                    return _expand_in(S().visit(ast.parse(ast.unparse(r), mode="eval").body), im.module)
+            return node
+
+    def _expand_in(x: ast.expr, mod_):
+        class C(ast.NodeTransformer):
+            def visit_Call(self, node):
+                self.generic_visit(node)
+                f = corpus.find_function(mod_.resolve(dotted(node.func) or ""))
+                if f is not None and not node.keywords and not any(isinstance(a, ast.Starred) for a in node.args) and len(node.args) == len(f.params):
+                    r = _single_return(f)
+                    if r is not None:
+                        amap = {p_: ast.unparse(a) for p_, a in zip(f.params, node.args)}
+
+                        class S(ast.NodeTransformer):
+                            def visit_Name(self, nm):
+                                return ast.parse("(" + amap[nm.id] + ")", mode="eval").body if nm.id in amap else nm
+
+                        mods.append(f.module)
+                        return S().visit(ast.parse(ast.unparse(r), mode="eval").body)
+                return node
+
+        return C().visit(x)
+
+    fresh = ast.parse(ast.unparse(e), mode="eval").body
+    out = _expand_in(X().visit(fresh), where.module)
+    return ast.parse(ast.unparse(out), mode="eval").body, mods
 
 
 def _refuri_verdict(e: ast.expr, mv: str, rk: str, mod=None) -> str | None:
@@ -3409,7 +3617,11 @@ def _refuri_verdict(e: ast.expr, mv: str, rk: str, mod=None) -> str | None:
             test = test.left
         if unparse(test) == base and unparse(b) == loc and isinstance(a, ast.Call) and (dotted(a.func) or "").endswith("join") and len(a.args) == 2:
             args = [unparse(x) for x in a.args]
-            joiner = mod.resolve(dotted(a.func) or "") if mod is not None else (dotted(a.func) or "")
+            joiner = dotted(a.func) or ""
+            for m_ in (mod if isinstance(mod, list) else ([mod] if mod is not None else [])):
+                if m_.resolve(joiner) != joiner or joiner.split(".")[0] in m_.imports:
+                    joiner = m_.resolve(joiner)
+                    break
             if joiner == "urllib.parse.urljoin" and set(args) == {base, loc}:
                 return (f"`{short(a, 60)}` resolves the location *relative to* the base URL (RFC 3986): a base URL with a path and no trailing slash "
                         "(e.g. https://docs.python.org/3.7) loses its last segment, so the link points outside the documentation instead of at base/location")
